@@ -29,6 +29,9 @@ type TagReader struct {
 	OnRead    func()
 	OnFail    func()
 	failed    bool
+	// EOFWithData makes the final Read return its bytes together with io.EOF (legal for an io.Reader;
+	// http response bodies with a known length and iotest.DataErrReader behave like this).
+	EOFWithData bool
 }
 
 var ErrRawBody = errors.New("raw body source failed (simulated)")
@@ -63,6 +66,9 @@ func (r *TagReader) Read(p []byte) (int, error) {
 	}
 	n := copy(p, r.Data[r.pos:r.pos+max])
 	r.pos += n
+	if r.EOFWithData && r.pos >= len(r.Data) && (r.FailAfter < 0 || r.FailAfter >= len(r.Data)) {
+		return n, io.EOF
+	}
 	return n, nil
 }
 
@@ -393,6 +399,7 @@ func (g *Gen) Value(t reflect.Type, loc Loc) reflect.Value {
 		return v
 	case t.Kind() == reflect.Interface && (readerType.Implements(t) || t.Implements(readerType)):
 		tr := NewReader(g.RawBody())
+		tr.EOFWithData = r.IntN(3) == 0
 		if reflect.TypeOf(tr).Implements(t) {
 			v.Set(reflect.ValueOf(tr))
 		}
@@ -427,6 +434,9 @@ func (g *Gen) Value(t reflect.Type, loc Loc) reflect.Value {
 			if loc != LocBody {
 				n = 1
 			}
+		}
+		if n == 0 && loc == LocBody && r.IntN(2) == 0 {
+			return v // a nil slice: expressible, and must travel as [] (not null) where the schema is not nullable
 		}
 		s := reflect.MakeSlice(t, n, n)
 		for i := 0; i < n; i++ {
